@@ -52,12 +52,13 @@ def _taylor(a, N, shift=0):
     return t
 
 
-def pade_fn(order):
+def pade_fn(order, sc=0):
+    """sc: number of squarings handed to pade13_scaled_i (argument |a| <= theta_13 * 2^sc)"""
     def fn(eng):
         S.set_engine(eng)
         import pyyeti.expmint as em
         a = z3.Real("a")
-        th = Fraction(THETA[order])
+        th = Fraction(THETA[order]) * 2 ** sc
         eng.assume(z3.And(a >= -th, a <= th))
         sa = S.SymR(a)
         pw = {1: sa}
@@ -80,18 +81,27 @@ def pade_fn(order):
         f = types.FunctionType(f.__code__, g, f.__name__, f.__defaults__, f.__closure__)
         info = dict(order=order)
         try:
-            U, V, P, Q = f(ns, 0, 1.0) if order == 13 else f(ns, 1.0)
+            U, V, P, Q = f(ns, sc, 1.0) if order == 13 else f(ns, 1.0)
         except E.Inconclusive:
             raise
         except Exception as ex:
             return [E.Obl("pade%d_i raises %r" % (order, ex), False, info=info)]
         eng.tag("pade%d" % order)
         U, V, P, Q = (S.lift(x) for x in (U, V, P, Q))
+        if sc:
+            # the scaled tables approximate exp(a / 2^sc) and its integral over a step of 2^-sc:
+            # restate in the scaled variable b = a / 2^sc, |b| <= theta_13
+            b = z3.Real("b")
+            eng.assume(b * 2 ** sc == a)
+            a_eff, th = b, Fraction(THETA[order])
+            P = P * 2 ** sc
+        else:
+            a_eff = a
         N = {3: 16, 5: 22, 7: 30, 9: 40, 13: 60}[order]
         thf = float(th)
         rem = Fraction(3) ** math.ceil(thf) * th ** (N + 1) / factorial(N + 1)      # Lagrange remainder bound of the Taylor polynomials
         eps = Fraction(1, 10 ** 14) + rem * 4
-        T0, T1 = _taylor(a, N), _taylor(a, N, 1)
+        T0, T1 = _taylor(a_eff, N), _taylor(a_eff, N, 1)
         obls = [E.Obl("pade%d: denominators positive on |a| <= theta" % order, z3.And(V - U > 0, Q > 0), info=info)]
         d = (V + U) - T0 * (V - U)
         obls.append(E.Obl("pade%d: (V+U)/(V-U) = e^a to 1e-14 relative" % order, z3.And(d <= eps * T0 * (V - U), -d <= eps * T0 * (V - U)), info=info))
@@ -414,9 +424,14 @@ def jobs(tier, seed):
     out = []
     for order in (3, 5, 7, 9, 13):
         out.append(H.Job("pade%d" % order, job, "pade", order, weight=50 * order))
+    if not q:
+        for sc in (1, 2, 3):
+            out.append(H.Job("pade13-scaled-%d" % sc, job, "pade", 13, sc, weight=800))
     items = []
     hs = {"osc-damped": (1e-3, 0.05, 1.0), "stiff": (1e-3, 0.05, 1.0), "defective": (0.05, 1.0, 30.0), "singular-rb": (0.05, 1.0, 30.0), "freefree": (0.05, 1.0, 30.0),
           "full3": (1e-3, 0.05, 0.5), "near-triangular": (1e-3, 0.05, 1.0), "near-triangular-3": (0.05, 1.0), "upper": (0.05, 1.0)}
+    if not q:
+        hs = {k: tuple(sorted(set(v + (1e-6, 2e-3, 0.3, 2.5)))) for k, v in hs.items()}
     for name, hl in hs.items():
         for h in hl:
             for order in (0, 1):
